@@ -1,6 +1,7 @@
 import Carquet.Util
 import Driver.Ops.Alloc
 import Driver.Ops.Bloom
+import Driver.Ops.C18
 import Driver.Ops.Crc
 import Driver.Ops.Cursor
 import Driver.Ops.Delta
@@ -22,6 +23,7 @@ open Carquet.Util
 def handlers : List (Line → Option Verdict) :=
   [ Driver.Ops.Alloc.handle,
     Driver.Ops.Bloom.handle,
+    Driver.Ops.C18.handle,
     Driver.Ops.Crc.handle,
     Driver.Ops.Cursor.handle,
     Driver.Ops.Delta.handle,
